@@ -31,7 +31,8 @@ func (t *HTTPTarget) Stop() { _ = t.srv.Close() }
 func (t *HTTPTarget) handle(w http.ResponseWriter, r *http.Request) {
 	body, _ := io.ReadAll(r.Body)
 	t.rec.Emit(E{"ev": "Recv", "proto": "http", "method": r.Method, "path": r.URL.Path,
-		"q": r.URL.Query().Get("tok"), "h": r.Header.Get("X-Tok"), "h2": r.Header.Get("X-Tok2"), "body": string(body)})
+		"q": r.URL.Query().Get("tok"), "h": r.Header.Get("X-Tok"), "h2": r.Header.Get("X-Tok2"), "body": string(body),
+		"toks": []string{r.URL.Query().Get("tok"), r.Header.Get("X-Tok"), r.Header.Get("X-Tok2"), string(body)}})
 	w.Header().Set("Content-Type", "application/json")
 	w.Header().Set("X-Echo", r.Header.Get("X-Tok"))
 	_, _ = w.Write([]byte(`{"result":"ok","items":[1,2,3]}`))
